@@ -158,7 +158,7 @@ func c14before(ops []c14op, clean bool) (image map[string]string, delivered []c1
 
 // c14inj is one message injected into the restarted node.
 type c14inj struct {
-	Kind  string `json:"kind"`  // user / query
+	Kind string `json:"kind"` // user / query
 	// Route: gossip (NotifyMsg), sync (MergeRemoteState, periodic), join
 	// (MergeRemoteState, join), empty-join (a join state sync from a peer that has
 	// seen no events: event clock 1, no events; LT unused)
